@@ -180,9 +180,18 @@ pub fn after_op(
             } else if !has_row && !has_tracker {
                 g.rep.fail("C08", "receipt_without_record", "receipt issued but the appointment is neither stored nor responded, and its dispute is not in the last 6 blocks");
             }
-            if has_row && !has_tracker {
-                if let Some(b) = sent_blob {
-                    g.mon.last_accepted.insert(key, b);
+            if has_row {
+                // C08: what is stored is the version this receipt is for (unless this version was dropped because it does
+                // not decrypt under a dispute already confirmed: then an older version may still be there)
+                let submitted = if let HOp::Add { blob, .. } = op { g.sys.build_blob(blob).0 } else { vec![] };
+                let dropped_undecryptable = in_last6 && pen.is_none();
+                if let Some(stored) = sent_blob {
+                    if stored != submitted && !dropped_undecryptable {
+                        g.rep.fail("C08", "stored_version_is_not_the_accepted_one", &format!("a receipt was returned for a new version of {key:?} ({} bytes) but the row still holds another version ({} bytes)", submitted.len(), stored.len()));
+                    }
+                    if stored == submitted && !has_tracker {
+                        g.mon.last_accepted.insert(key, stored);
+                    }
                 }
             }
             let _ = pen;
@@ -216,7 +225,12 @@ pub fn after_op(
             if m != "send" {
                 continue;
             }
-            let by_tracker = prev.trackers.values().any(|tr| tr.0 == *t || tr.1 == *t);
+            // a tracker's penalty may be (re-)submitted at any time; its DISPUTE only when the block that confirmed
+            // the penalty has just been disconnected (re-announcement after a reorg)
+            let by_tracker = prev.trackers.iter().any(|(k, tr)| tr.1 == *t || (tr.0 == *t && g.mon.reorged.contains(k)));
+            if !by_tracker && prev.trackers.values().any(|tr| tr.0 == *t) {
+                g.rep.fail("C02", "dispute_submitted_without_reorg", &format!("sendrawtransaction(t{}) is the dispute of a tracker whose confirming block was not disconnected", t * 16));
+            }
             let candidates: Vec<(&(u32, u32), &(Vec<u8>, u32, String, u32))> =
                 prev.appts.iter().chain(cur.appts.iter()).collect();
             let mut by_breach = false;
@@ -361,13 +375,15 @@ pub fn after_op(
                     }
                 } else if was_reorged && row_now.is_some() || (was_reorged && !rehandled) {
                     // first connection after the reorg: dispute, then penalty, are re-announced
-                    if !sent_ok(tr.0) {
+                    // (the carrier's memo lives from one block connection to the next: a transaction already submitted
+                    // since then — by a submission that took the triggered path in between — is not submitted again)
+                    if !sent_ok(tr.0) && !g.mon.sent_since_block.contains(&tr.0) {
                         g.rep.fail("C04", "reorged_dispute_not_resubmitted", &format!("{k:?}: confirming block disconnected, dispute t{} not re-sent at {height}", tr.0 * 16));
-                    } else if !is_rejected(verdict(tr.0)) && !sent_ok(p) {
+                    } else if !is_rejected(verdict(tr.0)) && !sent_ok(p) && !g.mon.sent_since_block.contains(&p) {
                         g.rep.fail("C04", "reorged_penalty_not_resubmitted", &format!("{k:?}: penalty t{} not re-sent at {height}", p * 16));
                     }
                 } else if !confirmed && !was_reorged && height >= h + 6 && !rehandled {
-                    if !sent_ok(p) {
+                    if !sent_ok(p) && !g.mon.sent_since_block.contains(&p) {
                         g.rep.fail("C04", "stale_penalty_not_rebroadcast", &format!("{k:?}: in mempool since {h}, block {height}, no re-submission"));
                     }
                 } else if !confirmed && !was_reorged && height < h + 6 && !rehandled && sent_ok(p) && !prev.trackers.iter().any(|(k2, t2)| k2 != k && t2.1 == p) {
@@ -407,6 +423,17 @@ pub fn after_op(
         if !same_db(&prev, &cur) {
             g.rep.fail("C04", "disconnect_changed_database", "block_disconnected changed the database");
         }
+    }
+
+    if let HOp::Restart = op {
+        // C03: a restart finds what the tower held, and changes nothing
+        if !same_db(&prev, &cur) {
+            g.rep.fail("C03", "restart_changed_database", "stopping and starting the tower on the same data directory changed the database");
+        }
+        // the caches are rebuilt from the last blocks, the carrier's memo is gone
+        g.mon.cache_deficit = 0;
+        g.mon.index_deficit = 0;
+        g.mon.sent_since_block.clear();
     }
 
     // confirmed only in a block of the active chain (once a chain update has been processed;
